@@ -10,6 +10,16 @@ Tie     : extracted facts (handler lookup first, recursive dump calls forwarding
           per instance and per call (names and value entries), handler tables (user classes, library classes,
           built-in types, None entries), configured and explicit method / attribute names, instances at every
           nesting position (also directly as field values).
+          + hostile field values (harness-local classes `jrv_hostile.*`: `__eq__` that raises on another kind, array-like
+          `__eq__` whose result has no truth value, raising `__hash__` / `__bool__` / `__len__`), directly as field values of
+          unsupported and of handled types, with and without ignore lists (model: `ClassDef.eqRaises`, `valueIn`);
+          + `Config.copy()` on configurations with every attribute set or reassigned, against `ConfigCopy.copy` (component
+          `cfgcopy`), and the per-request configuration a handler is handed on the 1.0-compatibility path against
+          `ConfigCopy.compat`;
+          + every path on which a non-default Config reaches jsonclass.dump (`_config_paths`, entry points of
+          harness/jcentries.py): direct, jsonrpc.dump/dumps, client call / keyword / notify / MultiCall over loop and real
+          transports, the reply of every server entry point to 2.0-form, 1.0-form-on-2.0 (Config.copy), batch and 1.0-server
+          requests — the same monitor on probe objects that define a method and an ignore list under every candidate name.
 Monitor : written from the property statement, evaluated on the real output by walking the real object graph and
           the dump in parallel (`Monitor`): a node whose exact type has a non-None handler is replaced by that
           handler's return value (the handlers echo the names and the ignore list they receive); a node of any
@@ -31,6 +41,7 @@ import json
 
 import gen
 import impl
+import jcentries
 import jcenv
 import pyval
 
@@ -45,6 +56,9 @@ REQUIRED_THEOREMS = [
     "C20_handled_type_is_known", "C20_gen_handlerLookupFirst", "C20_gen_dumpCalls", "C20_gen_handlerCallArgs",
     "C20_gen_knownTypes", "C20_gen_ignoreAssembly", "C20_gen_serialIgnoreFilter", "C20_gen_dumpDefaults",
     "C20_gen_attributeNames",
+    "C20_unsupported_not_compared", "C20_hostile_known_raises", "C20_hostile_known_empty_list",
+    "C20_copy_fields", "C20_copy_eq", "C20_compat_fields", "C20_compat_dumpCfg", "C20_compat_same_dump",
+    "C20_copy_table_complete", "C20_gen_fieldFilterOrder", "C20_gen_configInitFields", "C20_gen_configCopyFields",
 ]
 
 METHOD_NAMES = ["_serialize", "to_json", "dump_me"]
@@ -63,6 +77,81 @@ DATES = [datetime.date(2020, 1, 2), datetime.date(1999, 12, 31), datetime.dateti
          datetime.datetime(1970, 1, 1), datetime.timedelta(days=2, seconds=3), datetime.timedelta(0)]
 
 SUPPORTED = (dict, list, set, frozenset, tuple, bytes, str, int, float, bool, type(None))
+
+
+# Classes whose instances do not tolerate being looked at more closely than their type (values of *unsupported* types, unless
+# a handler is registered for them): `__eq__` that only knows its own kind, array-like `__eq__` whose result has no truth
+# value, unhashable / hash-raising, truth-value-raising, length-raising.  The model describes them as beans with one
+# field and the exception class a comparison raises (`ClassDef.eqRaises`); `__hash__`, `__bool__`, `__len__` are read by no
+# construct of `dump`.
+class _Ambiguous(object):
+    def __bool__(self):
+        raise ValueError("the truth value of a comparison result is ambiguous")
+
+
+def _hostile_classes():
+    class EqOwnKind(object):
+        def __init__(self, hv=0):
+            self.hv = hv
+
+        def __eq__(self, other):
+            return self.hv == other.hv  # AttributeError on anything that is not of its kind
+
+        def __hash__(self):
+            return hash(self.hv)
+
+    class EqAmbiguous(object):
+        def __init__(self, hv=0):
+            self.hv = hv
+
+        def __eq__(self, other):
+            return _Ambiguous()
+
+        __hash__ = None
+
+    class EqTypeError(object):
+        def __init__(self, hv=0):
+            self.hv = hv
+
+        def __eq__(self, other):
+            raise TypeError("cannot compare")
+
+        def __ne__(self, other):
+            raise TypeError("cannot compare")
+
+        def __hash__(self):
+            return 7
+
+    class HashRaises(object):
+        def __init__(self, hv=0):
+            self.hv = hv
+
+        def __hash__(self):
+            raise TypeError("unhashable by decision")
+
+    class BoolRaises(object):
+        def __init__(self, hv=0):
+            self.hv = hv
+
+        def __bool__(self):
+            raise ValueError("no truth value")
+
+        def __len__(self):
+            raise ValueError("no length")
+
+    return [(EqOwnKind, "AttributeError"), (EqAmbiguous, "ValueError"), (EqTypeError, "TypeError"), (HashRaises, None),
+            (BoolRaises, None)]
+
+
+HOSTILE = _hostile_classes()
+HOSTILE_SPECS = []
+HOSTILE_TYPES = {}
+for _c, _exc in HOSTILE:
+    _c.__module__ = "jrv_hostile"
+    _c.__qualname__ = _c.__name__
+    HOSTILE_SPECS.append({"id": "hostile." + _c.__name__, "module": "jrv_hostile", "name": _c.__name__, "bases": [], "slots": None,
+                          "kind": "bean", "own": [("hv", 0)], "class_attrs": {}, "hostile": True, "eq_raises": _exc})
+    HOSTILE_TYPES["hostile." + _c.__name__] = _c
 BYTES = [b"", b"ab", b"\x00\xff", "é".encode("utf-8"), b"secret-bytes"]
 
 
@@ -75,6 +164,8 @@ class Env20(jcenv.Env):
         for s in self.specs:
             if s.get("external"):
                 c = EXT_TYPES[s["id"]]
+            elif s.get("hostile"):
+                c = HOSTILE_TYPES[s["id"]]
             elif s["kind"] == "decimal":
                 c = decimal.Decimal
             elif s["kind"] == "enum":
@@ -102,6 +193,10 @@ class Env20(jcenv.Env):
             self.specs = saved
         for s in reversed(ext):
             out.append([s["id"], s["module"], s["name"], list(s["bases"]), [], ["bean", {}], {}])
+        for row in out:
+            s = self.by_id[row[0]]
+            if s.get("hostile") and s.get("eq_raises"):
+                row.append(s["eq_raises"])  # 8th element: the exception class a comparison with an instance raises
         return out
 
 
@@ -114,6 +209,7 @@ class ValueGen20(jcenv.ValueGen):
         self.clean = clean
         self.missing_attr = False
         self.nonlist_ignore = False
+        self.hostile = []  # ids of the hostile classes instantiated
 
     def value(self, depth, allow_obj=True, obj_top=True):
         # bytes: a built-in primitive type (utils.PRIMITIVE_TYPES) at any position
@@ -130,6 +226,9 @@ class ValueGen20(jcenv.ValueGen):
         if s.get("external"):
             return rng.choice([d for d in DATES if type(d) is EXT_TYPES[cid]])
         c = env.cls[cid]
+        if s.get("hostile"):
+            self.hostile.append(cid)
+            return c(rng.randint(0, 3))
         if s["kind"] == "decimal":
             return decimal.Decimal(rng.choice(jcenv.DECIMALS))
         if s["kind"] == "enum":
@@ -154,8 +253,10 @@ class ValueGen20(jcenv.ValueGen):
             if r < 0.25:
                 continue
             if r < 0.45 and depth >= 0:
-                # an instance directly as a field value: unsupported unless its type is handled
-                setattr(inst, n, self.instance(max(depth - 1, 0)))
+                # an instance directly as a field value: unsupported unless its type is handled — now and then one that
+                # cannot be compared, hashed or truth-tested
+                hostile = [x["id"] for x in env.specs if x.get("hostile")]
+                setattr(inst, n, self.instance(max(depth - 1, 0), rng.choice(hostile) if hostile and rng.random() < 0.3 else None))
             else:
                 setattr(inst, n, self.value(depth, True, obj_top=False))
         if hasattr(inst, "__dict__"):
@@ -193,7 +294,7 @@ def gen_env(ctx, rng, tag, cfg_names, clean):
             unset = [w for w in s["slots"] if w.startswith("unset_")]
             for w in unset:
                 s["slots"].remove(w)
-    return Env20(EXTERNALS + specs)
+    return Env20(EXTERNALS + [dict(h) for h in HOSTILE_SPECS] + specs)
 
 
 def types_present(env, v, acc=None, depth=0):
@@ -252,10 +353,15 @@ def py_type(env, tag):
 
 def plain_equal(a, b):
     """Same value and same types at every level (what "verbatim" means)."""
+    if a is b:
+        return True
     try:
         return pyval.enc(a, canon=True) == pyval.enc(b, canon=True)
     except pyval.Unencodable:
-        return a == b and type(a) is type(b)
+        try:
+            return type(a) is type(b) and bool(a == b)
+        except Exception:  # noqa: BLE001  (values that cannot be compared are the same only if identical)
+            return False
 
 
 class Monitor(object):
@@ -362,21 +468,25 @@ class Monitor(object):
         handled_types = tuple(self.handlers)
         for name, val in stored.items():
             named = any(type(e) is str and e == name for e in ignore_list)
-            known = isinstance(val, SUPPORTED) or (handled_types and isinstance(val, handled_types))
+            known = isinstance(val, SUPPORTED) or bool(handled_types and isinstance(val, handled_types))
+            present = name in out
+            if not known:
+                # neither supported nor handled: omitted, whatever the ignore lists hold and whatever comparing it would do
+                self.positions.add("unsupported@field:" + self.kind_of(val))
+                if present:
+                    self.hit("unsupported-present", path, "attribute %r holds a %s (neither supported nor handled) but is dumped as %r"
+                             % (name, type(val).__name__, out[name]))
+                continue
             try:
                 valued = val in ignore_list
-            except Exception:  # noqa: BLE001
+            except Exception:  # noqa: BLE001  (a handled value that cannot be compared: dump fails, this is not reached)
                 continue
-            present = name in out
             if named and present:
                 self.hit("ignored-name-present", path, "attribute %r is named by the ignore list %r but is a key of %r"
                          % (name, ignore_list, sorted(map(str, out))))
             elif valued and present and known:
                 self.hit("ignored-value-present", path, "attribute %r has the value %r which is in the ignore list %r but is dumped"
                          % (name, val, ignore_list))
-            elif not known and present:
-                self.hit("unsupported-present", path, "attribute %r holds a %s (neither supported nor handled) but is dumped as %r"
-                         % (name, type(val).__name__, out[name]))
             elif known and not named and not valued and not present:
                 self.hit("field-missing:" + ("handled" if not isinstance(val, SUPPORTED) else "supported"), path,
                          "attribute %r = %r (%s) is neither ignored nor unsupported but is absent from %r"
@@ -399,7 +509,7 @@ class Monitor(object):
                 if self.env.enc(x, canon=True) != self.env.enc(y, canon=True):
                     return False
             except pyval.Unencodable:
-                if not (type(x) is type(y) and x == y):
+                if not plain_equal(x, y):
                     return False
         return True
 
@@ -407,7 +517,7 @@ class Monitor(object):
         t = type(obj)
         if t in self.env.ids:
             s = self.env.by_id[self.env.ids[t]]
-            return "library" if s.get("external") else s["kind"]
+            return "library" if s.get("external") else ("hostile" if s.get("hostile") else s["kind"])
         return t.__name__
 
 
@@ -440,7 +550,12 @@ def run_case(env, cfg_names, handlers, args, v):
 
 
 def run(ctx):
-    ctx.rule = ("programs = random class hierarchies of C07 (3-7 classes + enum + Decimal + datetime.date/datetime/timedelta) x "
+    ctx.rule = ("every path on which a non-default Config (names, handler table, ignore lists) reaches jsonclass.dump — direct call, "
+                "jsonrpc.dump/dumps (request, response, notification), ServerProxy/Server call, keyword call, notification, MultiCall, "
+                "the reply of every server entry point (dispatcher, CGI handler, TCP / pooled / Unix-socket servers) to a 2.0-form "
+                "request, to a 1.0-form request on a 2.0 server (answered through Config.copy()), in a batch, on a 1.0 server — with "
+                "probe objects that define a method and an ignore list under every candidate name; Config.copy() on configurations "
+                "with every attribute set / reassigned; programs = random class hierarchies of C07 (3-7 classes + enum + Decimal + datetime.date/datetime/timedelta) x "
                 "class-, instance- and call-level ignore lists (field names and value entries) x handler tables (user classes, "
                 "library classes, built-in types, None entries) x configured/explicit method and attribute names x instances at "
                 "every nesting position (also directly as field values); distinct_nontrivial = distinct (set of (handled|builtin, "
@@ -459,7 +574,16 @@ def run(ctx):
             _run_env(ctx, env, cfg_names, clean, per_env, lines, expect)
         finally:
             env.uninstall()
-    outs = ctx.lean(lines)
+    # the paths on which a configuration reaches jsonclass.dump, and Config.copy itself (run first: separate random stream)
+    copy_cases = _config_copy(ctx)
+    _config_paths(ctx)
+    outs = ctx.lean(lines + [c[0] for c in copy_cases])
+    for (ln, want, case), mo in zip(copy_cases, outs[len(lines):]):
+        got = [pyval.canon(part) for part in mo.split(" | ")][:len(want)] if " | " in mo else [mo]
+        if got != want:
+            ctx.disagree(ln[-600:], " | ".join(want)[:700], " | ".join(got)[:700], component="cfgcopy")
+    ctx.traces_validated += len(copy_cases)
+    outs = outs[:len(lines)]
     unmodelled = 0
     for ln, mo, (loose_cmp, exp) in zip(lines, outs, expect):
         if "err Unmodelled" in mo:
@@ -529,7 +653,19 @@ def _run_env(ctx, env, cfg_names, clean, per_env, lines, expect):
         for key, detail in hits[:3]:
             ctx.violate(case, detail, key=key)
         raising = any(h == 2 for _t, h in handlers)
-        if k == "err" and clean and not raising:
+        # a hostile value whose type is handled (a key of the handler table, also with a None entry) is of a known type: it is
+        # compared with the ignore-list entries, and the comparison fails — a failure cause of the program, not of dump
+        htypes = tuple(py_type(env, t) for t, _h in handlers)
+        hostile_known = bool(htypes) and any(issubclass(env.cls[cid], htypes) for cid in vg.hostile)
+        # … and so is a tuple that holds such an instance directly while an ignore list in force has a tuple entry: Python
+        # compares tuples item by item (no length shortcut), which reaches the instance's __eq__
+        if vg.hostile and not hostile_known and _tuple_with_hostile(v, env) and _tuple_entries(v, env, ig_arg):
+            hostile_known = True
+            ctx.hist["hostile/inside-a-tuple-compared-with-a-tuple-entry"] += 1
+        for cid in set(vg.hostile):
+            ctx.hist["hostile/%s/%s/%s" % (cid.split(".")[-1], "handled" if htypes and issubclass(env.cls[cid], htypes) else "unsupported",
+                                         "ignore-list" if (ig_arg or _has_ignore_lists(v, env, ia_arg or cfg_names[1])) else "no-ignore-list")] += 1
+        if k == "err" and clean and not raising and not hostile_known:
             ctx.violate(case, "dump raised %s: %s on a program without failure causes" % (type(d).__name__, d),
                         key="dump-raises:" + type(d).__name__)
         try:
@@ -544,7 +680,7 @@ def _run_env(ctx, env, cfg_names, clean, per_env, lines, expect):
             continue
         lines.append("jcdump %s %s %s %s" % (pyval.enc(jcenv.lean_cfg(cfg.serialize_method, cfg.ignore_attribute, handlers)),
                                              lean_env, pyval.enc([sm_arg, ia_arg, ig_arg]), vtext))
-        multi_raise = k == "err" and (raising or not clean)
+        multi_raise = k == "err" and (raising or not clean or hostile_known)
         expect.append((c07.has_multiset(v, env), dexp if not multi_raise else "err *"))
         outcome = "ok" if k == "ok" else type(d).__name__
         ctx.count(case_repr={"value": vrepr, "handlers": handlers, "args": [sm_arg, ia_arg, repr(ig_arg)], "dump": repr(d)[:300]} if i < 1 else None,
@@ -552,6 +688,430 @@ def _run_env(ctx, env, cfg_names, clean, per_env, lines, expect):
                   kind="%s/%s/%s" % ("clean" if clean else "any", "handlers%d" % min(len(handlers), 3), outcome))
         for p in positions:
             ctx.hist["pos:" + p] += 1
+
+
+def _walk(v, env, depth=0):
+    """Every node of the object graph (containers, stored attributes of user-class instances)."""
+    yield v
+    if depth > 8:
+        return
+    if isinstance(v, dict):
+        for x in v.values():
+            for y in _walk(x, env, depth + 1):
+                yield y
+    elif isinstance(v, (list, tuple, set, frozenset)):
+        for x in v:
+            for y in _walk(x, env, depth + 1):
+                yield y
+    elif type(v) in env.ids and env.by_id[env.ids[type(v)]]["kind"] in ("bean", "serial") and not env.by_id[env.ids[type(v)]].get("external"):
+        for _n, x in env.stored(v):
+            for y in _walk(x, env, depth + 1):
+                yield y
+
+
+def _tuple_with_hostile(v, env):
+    eq_hostile = tuple(HOSTILE_TYPES[s["id"]] for s in HOSTILE_SPECS if s["eq_raises"])
+    return any(type(n) is tuple and any(isinstance(x, eq_hostile) for x in n) for n in _walk(v, env))
+
+
+def _tuple_entries(v, env, ig_arg):
+    """Is there a tuple entry in some ignore list (the call's, a class's or an instance's, under any name)?"""
+    if any(type(e) is tuple for e in (ig_arg or [])):
+        return True
+    for s in env.specs:
+        for val in (s.get("class_attrs") or {}).values():
+            if isinstance(val, list) and any(type(e) is tuple for e in val):
+                return True
+    for n in _walk(v, env):
+        if type(n) in env.ids and hasattr(n, "__dict__"):
+            for val in n.__dict__.values():
+                if type(val) is list and any(type(e) is tuple for e in val):
+                    return True
+    return False
+
+
+def _has_ignore_lists(v, env, ia, depth=0):
+    """Does some bean reachable from v carry a non-empty ignore list under the name in force?"""
+    if depth > 8:
+        return False
+    if isinstance(v, dict):
+        return any(_has_ignore_lists(x, env, ia, depth + 1) for x in v.values())
+    if isinstance(v, (list, tuple, set, frozenset)):
+        return any(_has_ignore_lists(x, env, ia, depth + 1) for x in v)
+    if type(v) in env.ids and env.by_id[env.ids[type(v)]]["kind"] in ("bean", "serial") and not env.by_id[env.ids[type(v)]].get("external"):
+        own = getattr(v, ia, None)
+        if isinstance(own, list) and own:
+            return True
+        return any(_has_ignore_lists(x, env, ia, depth + 1) for _n, x in env.stored(v))
+    return False
+
+
+# ---- Config.copy and the paths on which a configuration reaches jsonclass.dump ------------------------------------------
+
+PROBE_NAMES = [("_serialize", "_ignore"), ("_to_json", "_skip"), ("dump_me", "hidden_")]
+PROBE_HANDLERS = ["none", "tuple", "date+str"]
+PATH_FORMS = ["2.0", "1.0-on-2.0", "batch", "2.0-on-1.0-server", "1.0-on-1.0-server"]
+DIRECT_PATHS = ["direct", "rpc-dump-request", "rpc-dump-response", "rpc-dump-notify", "rpc-dumps-request", "rpc-dumps-response"]
+CLIENT_MODES = ["call", "keyword", "notify", "multicall"]
+
+
+class ProbeEnv(object):
+    """What the monitor needs to know of the probe classes."""
+
+    def __init__(self, classes):
+        self.ids = dict((c, "probe." + c.__name__) for c, _k in classes)
+        self.by_id = dict(("probe." + c.__name__, {"kind": k}) for c, k in classes)
+
+    def stored(self, inst):
+        return list(inst.__dict__.items())
+
+    def enc(self, v, canon=False):
+        return pyval.enc(v, canon=canon)
+
+
+def make_probes(sm, ia):
+    """Objects whose dumped form tells which names were consulted: a serialisation method and an ignore list exist under
+    *every* candidate name, each giving a different answer."""
+    all_methods = sorted(set(METHOD_NAMES + ["_serialize", "_to_json"]))
+    all_ignores = sorted(set(IGNORE_NAMES + ["_ignore"]))
+
+    class Account(object):
+        def __init__(self, owner):
+            self.owner = owner
+            self.token = "s3cr3t-" + owner
+            self.note = "n"
+
+    def via(name, attrs):
+        def method(self):
+            return [self.owner, "via:" + name], dict((a, getattr(self, a)) for a in attrs)
+        return method
+
+    for name in all_methods:
+        setattr(Account, name, via(name, ["owner", "note"] if name == sm else ["token"]))
+    for name in all_ignores:
+        setattr(Account, name, ["note"] if name == ia else ["owner"])
+
+    class Plain(object):
+        def __init__(self):
+            self.a = 1
+            self.hidden = "h"
+            self.t = (1, "t")
+            self.when = datetime.date(2020, 1, 2)
+            self.pt = HOSTILE[0][0](1)
+            self.inner = [Account("in"), ("x",)]
+
+    for name in all_ignores:
+        setattr(Plain, name, ["hidden"] if name == ia else ["a"])
+    return Account, Plain
+
+
+def probe_value(Account, Plain):
+    return {"accounts": [Account("alice"), Account("bob")], "plain": Plain(), "pair": (Account("carol"), 5)}
+
+
+def probe_cfg(names, hkind, version=2.0, seen=None):
+    cfg = impl.jsonrpclib.config.Config(version=version, serialize_method=names[0], ignore_attribute=names[1],
+                                        content_type="application/json")
+
+    def note(config):
+        if seen is not None:
+            seen.append(config)
+
+    def h_tuple(obj, sm, ia, ig, config):
+        note(config)
+        return ["T", sm, ia, len(obj)]
+
+    def h_date(obj, sm, ia, ig, config):
+        note(config)
+        return obj.isoformat()
+
+    def h_str(obj, sm, ia, ig, config):
+        note(config)
+        return "S:" + obj
+
+    if hkind == "tuple":
+        cfg.serialize_handlers[tuple] = h_tuple
+    elif hkind == "date+str":
+        cfg.serialize_handlers[datetime.date] = h_date
+        cfg.serialize_handlers[str] = h_str
+    return cfg
+
+
+def path_output(path, names, hkind):
+    """The dumped form of the probe value as it leaves the library on one path (JSON-decoded when the path ends in text).
+    -> (kind, output | exception, the value, its ProbeEnv, the configuration)"""
+    J = impl.jsonrpclib.jsonrpc
+    Account, Plain = make_probes(*names)
+    penv = ProbeEnv([(Account, "serial"), (Plain, "bean")])
+    parts = path.split(":")
+    version = 1.0 if parts[0] == "server" and parts[2].endswith("1.0-server") else 2.0
+    cfg = probe_cfg(names, hkind, version)
+    v = probe_value(Account, Plain)
+
+    def run():
+        if path == "direct":
+            return [(v, JC.dump(v, config=cfg))]
+        if path == "rpc-dump-request":
+            return [([v], J.dump([v], "m", 1, config=cfg)["params"])]
+        if path == "rpc-dump-response":
+            return [(v, J.dump(v, rpcid=1, is_response=True, config=cfg)["result"])]
+        if path == "rpc-dump-notify":
+            return [((v, 2), J.dump((v, 2), "m", is_notify=True, config=cfg)["params"])]
+        if path == "rpc-dumps-request":
+            return [({"x": v}, json.loads(J.dumps({"x": v}, "m", rpcid=1, config=cfg))["params"])]
+        if path == "rpc-dumps-response":
+            return [(v, json.loads(J.dumps(v, methodresponse=True, rpcid=1, config=cfg))["result"])]
+        if parts[0] == "client":
+            kind, mode = parts[1], parts[2]
+
+            def peer(body):
+                docs = json.loads(body)
+                reps = [{"jsonrpc": "2.0", "id": d["id"], "result": None} for d in (docs if isinstance(docs, list) else [docs])
+                        if d.get("id") is not None]
+                return "" if not reps else json.dumps(reps if isinstance(docs, list) else reps[0])
+
+            client = jcentries.Client(kind, cfg, peer)
+            try:
+                if mode == "call":
+                    client.proxy.m(v)
+                elif mode == "keyword":
+                    client.proxy.m(x=v)
+                elif mode == "notify":
+                    client.proxy._notify.m(v)
+                else:
+                    mc = J.MultiCall(client.proxy, config=cfg)
+                    mc._notify.other(1)
+                    mc.m(v)
+                    list(mc())
+            finally:
+                client.close()
+            doc = json.loads(client.sent[-1])
+            doc = doc[-1] if isinstance(doc, list) else doc
+            # the parameters are dumped as a whole: the tuple of positional arguments / the dict of keyword arguments
+            return [({"x": v} if mode == "keyword" else (v,), doc["params"])]
+        if parts[0] == "server":
+            kind, form = parts[1], parts[2]
+            req = {"method": "get", "id": 3, "params": []}
+            if form in ("2.0", "batch", "2.0-on-1.0-server"):
+                req["jsonrpc"] = "2.0"
+            if form == "batch":
+                req = [{"method": "get", "id": 4, "params": []}, req, {"method": "get", "id": 5, "params": []}]
+            entry = jcentries.ServerEntry(kind, cfg, {"get": lambda: v})
+            try:
+                reply = json.loads(entry.send(json.dumps(req)))
+            finally:
+                entry.close()
+            outs = []
+            for doc in (reply if isinstance(reply, list) else [reply]):
+                if "result" not in doc or doc.get("error"):
+                    raise RuntimeError("the server answered %r" % (doc,))
+                outs.append((v, doc["result"]))
+            return outs
+        raise ValueError(path)
+
+    k, out = impl.outcome(run)
+    return k, out, v, penv, cfg
+
+
+def path_verdicts(path, names, hkind):
+    """[(key, detail)] — the monitor of the statement on the output of one path."""
+    k, out, v, penv, cfg = path_output(path, names, hkind)
+    if k == "err":
+        return [("path-failed:" + path.split(":")[0], "%s: %s: %s" % (path, type(out).__name__, out))], k, out
+    hits = []
+    for obj, o in out:
+        mon = Monitor(penv, cfg, None, None, None)
+        try:
+            mon.check(obj, o)
+        except Exception as ex:  # noqa: BLE001
+            mon.hit("monitor-error", "value", "%s: %s" % (type(ex).__name__, ex))
+        hits.extend((key + "@" + ":".join(path.split(":")[::2]), "%s, configured names %r, handlers %s: %s" % (path, names, hkind, d))
+                    for key, d in mon.hits)
+    return hits, k, out
+
+
+def all_paths(thorough, rng):
+    """(path, how many of the 9 configuration variants)"""
+    out = [(p, 9) for p in DIRECT_PATHS]
+    for kind in jcentries.CLIENT_ENTRIES:
+        for mode in CLIENT_MODES:
+            out.append(("client:%s:%s" % (kind, mode), 9 if kind in ("proxy-loop", "server-alias") or thorough else 2))
+    for kind in jcentries.SERVER_ENTRIES:
+        for form in PATH_FORMS:
+            out.append(("server:%s:%s" % (kind, form), 9 if kind in jcentries.IN_PROCESS or thorough else 2))
+    return out
+
+
+def _config_paths(ctx, only=None):
+    rng = ctx.derive_rng("config-paths")
+    variants = [(n, h) for n in PROBE_NAMES for h in PROBE_HANDLERS]
+    for path, n in all_paths(ctx.thorough, rng):
+        chosen = variants if n >= len(variants) else rng.sample(variants[1:], n)  # never only the default names
+        for names, hkind in chosen:
+            hits, k, out = path_verdicts(path, names, hkind)
+            case = {"side": "path", "path": path, "names": list(names), "handlers": hkind}
+            for key, detail in hits[:2]:
+                ctx.violate(case, detail, key=key)
+            ctx.count(case_repr={"path": path, "names": names, "handlers": hkind, "dump": repr(out)[:300]} if names == PROBE_NAMES[1]
+                      and hkind == "tuple" and path.endswith("1.0-on-2.0") else None,
+                      nontrivial_key=("path", path, names, hkind, k), kind="path/%s/%s" % (path.split(":")[0], k))
+            ctx.hist["path:" + ":".join(path.split(":")[::2] if path.count(":") == 2 else [path])] += 1
+            ctx.hist["path-entry:" + (path.split(":")[1] if ":" in path else "function")] += 1
+
+
+CFG_FIELDS = ["version", "content_type", "user_agent", "use_jsonclass", "serialize_method", "ignore_attribute"]
+
+
+def _default_ua():
+    return impl.jsonrpclib.config.Config().user_agent
+
+
+def _cfg_view(cfg, hid, model_ua, ua_of=None):
+    """The eight attributes of a configuration as a value of the codec (L8 of `cfgcopy`).  `ua_of`: the original of which
+    `cfg` is a copy — when the original's user agent is None the copy's is not compared (the constructor replaces None by
+    the default user agent, `ConfigCopy.agentOr`; nothing C20 talks about reads it)."""
+    ua = cfg.user_agent
+    if ua == _default_ua() or (ua_of is not None and ua_of.user_agent is None):
+        ua = model_ua
+    return [cfg.version, cfg.content_type, ua, cfg.use_jsonclass, cfg.serialize_method, cfg.ignore_attribute,
+            [[n, c.__name__] for n, c in cfg.classes.items()],
+            [[jcenv_tag(t), None if h is None else hid[h]] for t, h in cfg.serialize_handlers.items()]]
+
+
+def jcenv_tag(t):
+    return t.__name__ if t.__module__ == "builtins" else "%s.%s" % (t.__module__, t.__name__)
+
+
+MODEL_UA = "jsonrpclib/<version> (Python <version>)"
+
+
+def random_config(rng):
+    """A configuration as a program may have left it: constructor arguments (positional or keyword), then attribute
+    stores (None, numbers and other names included), local classes, handler entries (also None)."""
+    C = impl.jsonrpclib.config.Config
+
+    def h0(obj, sm, ia, ig, config):
+        return "H0"
+
+    def h1(obj, sm, ia, ig, config):
+        return [sm, ia]
+
+    hid = {h0: 0, h1: 1}
+    scal = {"version": [1.0, 2.0, 2, 1, 3.5], "content_type": ["application/json", "application/json-rpc", "text/x", ""],
+            "user_agent": [None, "ua-x", "", _default_ua()], "use_jsonclass": [True, False, 0, 1],
+            "serialize_method": ["_serialize", "_to_json", "dump_me", "to_json", ""],
+            "ignore_attribute": ["_ignore", "_skip", "hidden_", ""]}
+    kw = {}
+    for f in CFG_FIELDS:
+        if rng.random() < 0.6:
+            kw[f] = rng.choice(scal[f])
+    r = rng.random()
+    if r < 0.3:
+        kw["serialize_handlers"] = {tuple: h0}
+    elif r < 0.4:
+        kw["serialize_handlers"] = {}
+    elif r < 0.5:
+        kw["serialize_handlers"] = None
+    if rng.random() < 0.3:
+        order = ["version", "content_type", "user_agent", "use_jsonclass", "serialize_method", "ignore_attribute", "serialize_handlers"]
+        dflt = [2.0, "application/json-rpc", None, True, "_serialize", "_ignore", None]
+        cfg = C(*[kw.get(f, d) for f, d in zip(order, dflt)])
+    else:
+        cfg = C(**kw)
+    for f in CFG_FIELDS:
+        if rng.random() < 0.25:
+            setattr(cfg, f, rng.choice(scal[f] + [None, 7]))
+    for t in (str, datetime.date, list, tuple):
+        if rng.random() < 0.25:
+            cfg.serialize_handlers[t] = rng.choice([h0, h1, None])
+    for c in (ProbeEnv, Monitor):
+        if rng.random() < 0.3:
+            cfg.classes.add(c, rng.choice([None, "alias_" + c.__name__]))
+    return cfg, hid
+
+
+def copy_verdicts(view):
+    """Rebuilds a configuration from its recorded attributes and checks its copy (replay)."""
+    cfg = impl.jsonrpclib.config.Config()
+    for f, x in zip(CFG_FIELDS, view[:6]):
+        setattr(cfg, f, _default_ua() if f == "user_agent" and x == MODEL_UA else x)
+    for n, cname in view[6]:
+        cfg.classes[n] = {"ProbeEnv": ProbeEnv, "Monitor": Monitor}[cname]
+    types = {"str": str, "datetime.date": datetime.date, "list": list, "tuple": tuple, "frozenset": frozenset}
+    for t, h in view[7]:
+        cfg.serialize_handlers[types[t]] = None if h is None else (lambda obj, sm, ia, ig, config, _h=h: "H%d" % _h)
+    cp = cfg.copy()
+    hits = []
+    for f in CFG_FIELDS:
+        if f == "user_agent" and getattr(cfg, f) is None:
+            continue
+        if not plain_equal(getattr(cfg, f), getattr(cp, f)):
+            hits.append("Config.copy(): %s is %r in the original and %r in the copy" % (f, getattr(cfg, f), getattr(cp, f)))
+    if dict(cfg.classes) != dict(cp.classes):
+        hits.append("Config.copy(): classes differ")
+    if dict(cfg.serialize_handlers) != dict(cp.serialize_handlers):
+        hits.append("Config.copy(): serialize_handlers differ")
+    return hits
+
+
+def _config_copy(ctx):
+    """Config.copy(): monitor (the copy has the attributes of the original) + correspondence with ConfigCopy.copy, and the
+    per-request configuration a handler is handed on the 1.0-compatibility path with ConfigCopy.compat."""
+    rng = ctx.derive_rng("config-copy")
+    out = []
+    for i in range(ctx.budget(150, 1200)):
+        cfg, hid = random_config(rng)
+        before = _cfg_view(cfg, hid, MODEL_UA)
+        k, cp = impl.outcome(cfg.copy)
+        case = {"side": "copy", "before": json.loads(json.dumps(before, default=repr))}
+        if k == "err":
+            ctx.violate(case, "Config.copy() raised %s: %s" % (type(cp).__name__, cp), key="copy-raises")
+            continue
+        after = _cfg_view(cp, hid, MODEL_UA, cfg)
+        names = CFG_FIELDS + ["classes", "serialize_handlers"]
+        for name, a, b in zip(names, before, after):
+            if name == "user_agent" and a is None:
+                continue  # the constructor replaces None by the default user agent
+            if not plain_equal(a, b):
+                ctx.violate(case, "Config.copy(): %s is %r in the original and %r in the copy" % (name, a, b), key="copy-drops:" + name)
+        if cp.classes is cfg.classes or cp.serialize_handlers is cfg.serialize_handlers:
+            ctx.violate(case, "Config.copy() shares a dictionary with the original", key="copy-shares")
+        want_copy = pyval.enc(after, canon=True)
+        # the per-request configuration of a 1.0-form request on a >= 2.0 server, as a handler sees it
+        want_compat = None
+        ver_ok = type(cfg.version) in (int, float) and cfg.version >= 2 and isinstance(cfg.serialize_method, str) \
+            and isinstance(cfg.ignore_attribute, str) and cfg.serialize_method and cfg.ignore_attribute
+        if ver_ok and cfg.use_jsonclass:
+            seen = []
+
+            def spy(obj, sm, ia, ig, config):
+                seen.append(config)
+                return "SPY"
+
+            cfg.serialize_handlers[frozenset] = spy
+            hid[spy] = 9
+            before = _cfg_view(cfg, hid, MODEL_UA)
+            from jsonrpclib.SimpleJSONRPCServer import SimpleJSONRPCDispatcher as D
+            disp = D(config=cfg)
+            disp.register_function(lambda: frozenset([1]), "get")
+            impl.outcome(disp._marshaled_dispatch, json.dumps({"method": "get", "id": 1, "params": []}))
+            if len(seen) == 1 and seen[0] is not cfg:
+                view = _cfg_view(seen[0], hid, MODEL_UA, cfg)
+                want_compat = pyval.enc(view, canon=True)
+                for name, a, b in zip(names, before, view):
+                    if name in ("serialize_method", "ignore_attribute", "serialize_handlers", "use_jsonclass", "classes") \
+                            and not plain_equal(a, b):
+                        ctx.violate(dict(case, before=json.loads(json.dumps(before, default=repr))),
+                                    "1.0-form request on a %s server: the handler is handed a configuration whose %s is %r, the "
+                                    "server's is %r" % (cfg.version, name, b, a), key="compat-drops:" + name)
+                ctx.hist["copy/compat-observed"] += 1
+            after2 = _cfg_view(cfg.copy(), hid, MODEL_UA, cfg)
+            want_copy = pyval.enc(after2, canon=True)
+        line = "cfgcopy " + pyval.enc(before)
+        out.append((line, [want_copy] + ([want_compat] if want_compat else []), case))
+        ctx.count(nontrivial_key=("copy", tuple(type(x).__name__ for x in before[:6]), len(before[6]), len(before[7])),
+                  kind="copy/%s" % ("compat" if want_compat else "plain"))
+    return out
 
 
 def has_bytes(v, env, depth=0):
@@ -599,6 +1159,24 @@ def _specs_plain(env):
 
 def replay(payload):
     case = payload.get("case") or {}
+    if case.get("side") == "path":
+        print("replaying the path %s with Config(serialize_method=%r, ignore_attribute=%r), handlers: %s"
+              % (case["path"], case["names"][0], case["names"][1], case["handlers"]))
+        hits, k, out = path_verdicts(case["path"], tuple(case["names"]), case["handlers"])
+        print("output ->", k, repr(out)[:900])
+        for key, detail in hits:
+            print("VIOLATION reproduced [%s]: %s" % (key, detail))
+        if not hits:
+            print("no violation")
+        return 1 if hits else 0
+    if case.get("side") == "copy":
+        print("replaying Config.copy() on a configuration with the attributes", case["before"])
+        hits = copy_verdicts(case["before"])
+        for d in hits:
+            print("VIOLATION reproduced:", d)
+        if not hits:
+            print("no violation")
+        return 1 if hits else 0
     print("replaying: value %s\nhandlers %s names %s args %s" % (case.get("value"), case.get("handlers"), case.get("cfg_names"),
                                                                case.get("args")))
     if not case.get("specs_enc"):
